@@ -278,6 +278,32 @@ func TestVerifFaults(t *testing.T) {
 		}
 	}
 	wg.Wait()
+	/* hops that are slow but within their limits, then a peer that stalls: every hop has a timeout of its own, and
+	   the time the earlier ones took must not eat the last one's (let alone leave it without any) */
+	for hops := 1; hops <= in.Hops+1 && hops <= 2; hops++ {
+		/* where the time goes: in the answers of the earlier hops and the handshake of the last one; everywhere; in
+		   the handshakes only; in the answers only */
+		for profile := 0; profile < 4; profile++ {
+			at := []int{0, 12}[profile%2]
+			c := verifFaultCase{id: newID(), hops: hops, hop: hops, kind: "stall", at: at}
+			u, r, wf := verifInstall(sim, c, true)
+			for i := 0; i <= hops; i++ {
+				h := sim.Host([]string{"f1", "f2", "f3"}[i%3])
+				slowShake := profile == 1 || profile == 2 || (profile == 0 && i == hops)
+				slowAnswer := profile == 1 || profile == 3 || (profile == 0 && i < hops)
+				if slowShake {
+					h.Set("*handshake*", &verifsim.Route{Fault: "slowhandshake", Delay: verifT * 6 / 10})
+				}
+				if slowAnswer && i < hops {
+					if route := h.Route(fmt.Sprintf("/%s/%d", c.id, i)); route != nil {
+						route.Delay = verifT * 6 / 10
+					}
+				}
+			}
+			verifRunFault(out, sim, c, u, r, wf)
+			sim.Reset()
+		}
+	}
 	/* a peer that accepts the TCP connection and never handshakes (own host: the fault is per host) */
 	for hops := 0; hops <= in.Hops; hops++ {
 		c := verifFaultCase{id: newID(), hops: hops, hop: hops, kind: "nohandshake", stage: "handshake"}
